@@ -2,6 +2,7 @@ package main
 
 import (
 	"fmt"
+	"math/bits"
 	"go/types"
 
 	"golang.org/x/tools/go/ssa"
@@ -216,7 +217,7 @@ func atomOf(c *Term) (*Term, bool) {
 var fullDom = [4]uint64{^uint64(0), ^uint64(0), ^uint64(0), ^uint64(0)}
 
 func single8(c *Term) (*Term, bool) {
-	if c.nv == 1 && c.v1.w == 8 && c.size <= 400 {
+	if c.nv == 1 && c.v1.w == 8 && c.w == 0 {
 		return c.v1, true
 	}
 	return nil, false
@@ -230,43 +231,36 @@ func (st *State) domOf(v *Term) [4]uint64 {
 	return d
 }
 
-// domSplit reports which truth values c can take over the current domain of its single
-// 8-bit variable, with witnesses.
-func (st *State) domSplit(c *Term, v *Term) (canT, canF bool, wT, wF uint64) {
-	d := st.domOf(v)
-	m := Model{}
-	for x := 0; x < 256; x++ {
-		if d[x>>6]&(1<<uint(x&63)) == 0 {
-			continue
-		}
-		m[v.name] = uint64(x)
-		if evalTerm(c, m) == 1 {
-			if !canT {
-				canT, wT = true, uint64(x)
-			}
-		} else {
-			if !canF {
-				canF, wF = true, uint64(x)
-			}
-		}
-		if canT && canF {
-			return
+func firstBit(m [4]uint64) (uint64, bool) {
+	for i := 0; i < 4; i++ {
+		if m[i] != 0 {
+			return uint64(i*64 + bits.TrailingZeros64(m[i])), true
 		}
 	}
+	return 0, false
+}
+
+// domSplit reports which truth values c can take over the current domain of its single
+// 8-bit variable, with witnesses (decided on c's 256-entry truth table).
+func (st *State) domSplit(c *Term, v *Term) (canT, canF bool, wT, wF uint64) {
+	d := st.domOf(v)
+	tt := c.table()
+	var mt, mf [4]uint64
+	for i := 0; i < 4; i++ {
+		mt[i] = d[i] & tt.b[i]
+		mf[i] = d[i] &^ tt.b[i]
+	}
+	wT, canT = firstBit(mt)
+	wF, canF = firstBit(mf)
 	return
 }
 
 func (st *State) refine(c *Term) {
 	if v, ok := single8(c); ok {
 		d := st.domOf(v)
-		m := Model{}
-		for x := 0; x < 256; x++ {
-			if d[x>>6]&(1<<uint(x&63)) != 0 {
-				m[v.name] = uint64(x)
-				if evalTerm(c, m) != 1 {
-					d[x>>6] &^= 1 << uint(x&63)
-				}
-			}
+		tt := c.table()
+		for i := 0; i < 4; i++ {
+			d[i] &= tt.b[i]
 		}
 		st.dom[v.id] = d
 		return
@@ -350,10 +344,56 @@ func (st *State) decide(c *Term) bool {
 	panic(forkSignal{c})
 }
 
+// distinctValues lists the values a single-8-bit-variable term takes over the variable's current
+// domain, or nil if there are more than max.
+func (st *State) distinctValues(t *Term, max int) []uint64 {
+	tt := t.table()
+	d := st.domOf(t.v1)
+	var vals []uint64
+	for x := 0; x < 256; x++ {
+		if d[x>>6]&(1<<uint(x&63)) == 0 {
+			continue
+		}
+		v := tt.v[x]
+		found := false
+		for _, y := range vals {
+			if y == v {
+				found = true
+				break
+			}
+		}
+		if !found {
+			vals = append(vals, v)
+			if len(vals) > max {
+				return nil
+			}
+		}
+	}
+	return vals
+}
+
+func (st *State) concretizeAmong(t *Term, vals []uint64) uint64 {
+	for _, v := range vals {
+		if st.decide(mkEq(t, mkBV(t.w, v))) {
+			return v
+		}
+	}
+	panic(pathKill{"infeasible", "concretizeAmong: no value"})
+}
+
 // concretize returns the concrete value of an integer term, forking as needed over [lo,hi].
 func (st *State) concretize(t *Term, lo, hi int) int {
 	if t.isC {
 		return int(sext(t.c, t.w))
+	}
+	// model-guided: try the value the current model gives first (it is feasible by construction)
+	if st.model != nil {
+		v := int(sext(evalTerm(t, st.model), t.w))
+		if v >= lo && v <= hi {
+			if st.decide(mkEq(t, mkBV(t.w, uint64(v)))) {
+				return v
+			}
+		}
 	}
 	for v := lo; v <= hi; v++ {
 		if st.decide(mkEq(t, mkBV(t.w, uint64(v)))) {
@@ -400,6 +440,20 @@ func setPath(v Value, path []int, nv Value) Value {
 func (st *State) load(p PtrVal) Value {
 	if p.obj < 0 {
 		panic(goPanic{msg: "runtime error: invalid memory address or nil pointer dereference"})
+	}
+	if p.sym != nil {
+		arr := getPath(st.heapGet(p.obj), p.path).(ArrayVal)
+		res := arr.e[p.symOff+p.symN-1].(*Term)
+		for i := p.symN - 2; i >= 0; i-- {
+			res = mkIte(mkEq(p.sym, mkBV(p.sym.w, uint64(i))), arr.e[p.symOff+i].(*Term), res)
+		}
+		// a lookup table with few distinct values: split by value, not by index
+		if res.nv == 1 && res.v1.w == 8 && res.w > 0 {
+			if vals := st.distinctValues(res, 16); vals != nil {
+				return mkBV(res.w, uint64(st.concretizeAmong(res, vals)))
+			}
+		}
+		return res
 	}
 	return getPath(st.heapGet(p.obj), p.path)
 }
